@@ -133,6 +133,12 @@ package samlsp
 //@ go func middlewareConfigured(m *Middleware) bool {
 //@    return m.OnError != nil && m.RequestTracker != nil && m.Session != nil && m.AssertionHandler != nil }
 
+//@ -- the jwt parser (assumed contract: a returned token is signed with the given key and method and is inside its
+//@ -- exp/nbf/iat window) decides the time window by calling claims.Valid() through the jwt.Claims interface: that must
+//@ -- be the library's StandardClaims.Valid, promoted from the embedded field - a Valid declared on the claims type itself
+//@ -- would silently replace it
+//@ dispatch[C16] JWTSessionClaims.Valid promoted StandardClaims
+//@ dispatch[C17] JWTTrackedRequestClaims.Valid promoted RegisteredClaims
 //@ go func trackedID(t RequestTracker, r *http.Request, id string) bool {
 //@    return exists(0, len(TrackedOf(t, r)), func(j int) bool { return TrackedOf(t, r)[j].SAMLRequestID == id }) }
 //@ contract (*Middleware).ServeACS
